@@ -34,7 +34,7 @@ func newScratch(tag string) (string, error) {
 
 // buildEngine compiles engines/<engine> with the import-swap overlay.
 func buildEngine(engine string, race bool, scratch string) (*built, error) {
-	ov, err := buildOverlay(repoRoot, scratch, engineSwaps[engine])
+	ov, err := buildOverlay(repoRoot, scratch, engineSwaps[engine], yieldFiles[engine])
 	if err != nil {
 		return nil, err
 	}
